@@ -20,6 +20,7 @@ import vlib
 TYP_OF_HV = {0: 1, 1: 1, 2: 4, 3: 2, 4: 3, 5: 1, 6: 1}     # 6: legal interface, illegal member name -> refused
 MODEL_MAX_QUICK = 48 * 1024
 MODEL_MAX_THOROUGH = 160 * 1024
+PLENS = [10000, 14000, 23000, 10000, 14000, 23000, 66000, 70000]       # object path of an hv=5 header; two give a header > 64 KiB
 
 
 def _stack():
@@ -146,18 +147,89 @@ def gen_msg(r, thorough, allow_big):
     pay = r.choice(sizes)
     if r.random() < 0.3:
         pay = max(0, pay + r.randrange(-40, 40))
+    if allow_big and r.random() < (0.04 if thorough else 0.02):
+        # multi-megabyte bodies in the ordinary stream too (gen_big_case makes the ones with long schedules)
+        pay = r.choice([1 << 20, 2 << 20, 3 << 20]) + r.choice([0, 1, 4, 12345, r.randrange(0, 70000)])
     preset = "-"
     if r.random() < 0.3:
         preset = str(r.choice([1, 2, 0x01020304, 0xFFFFFFFF, 0x80000000, r.randrange(1, 1 << 32)]))
     mode = r.choice(["push", "parts"])
     return {
-        "bo": r.choice("lB"), "hv": hv, "plen": r.choice([10000, 14000, 23000]) if hv == 5 else 0,
+        "bo": r.choice("lB"), "hv": hv, "plen": r.choice(PLENS) if hv == 5 else 0,
         "flags": r.choice([0, 0, 1, 2, 3, 4, 7, 128, 255]), "preset": preset, "nfds": r.choice([0, 0, 1, 2, 3]),
         "pay": pay, "seed": r.randrange(1 << 16), "mode": mode, "off": r.choice([0, 0, 3, 8]) if mode == "parts" else 0,
         "script": gen_script(r, pay > 300000),
         "api": "wall" if r.random() < 0.12 else "ctx",
         "fill": 0,
     }
+
+
+def gen_big_script(r, rounds):
+    """a long schedule for a multi-megabyte message: `rounds` times (some non-blocking / 1 ms sends, sometimes a
+    suspension and a resume, then the peer reads a part), so that many sendmsg calls START at positions far
+    into the body (beyond 1 MiB, 2 MiB, ...); ended by the non-blocking write/drain loop (mostly), write_all,
+    or by giving the message up"""
+    ops = []
+    for _ in range(rounds):
+        k = r.random()
+        if k < 0.45:
+            ops.append("W")
+        elif k < 0.70:
+            ops += ["w"] * r.choice([1, 2, 3, 6])
+        elif k < 0.80:
+            ops.append("T")
+        elif k < 0.90:
+            ops += ["s", "r", r.choice("wW")]
+        else:
+            ops += ["w", "s", "d%d" % r.choice([100, 9088, 100000]), "r"]
+        ops.append("d%d" % r.choice([2240, 9088, 20000, 100000, 100000, 1 << 20, 1 << 20]))
+    k = r.random()
+    ops.append("F" if k < 0.70 else "A" if k < 0.92 else r.choice("XQ"))
+    return ",".join(ops)
+
+
+def gen_big_case(r, i):
+    """one message with a body of 1 MiB + k .. 4 MiB and a long schedule of short sends; the first two of a run
+    are always 1 MiB + k and about 3 MiB on a shrunk send buffer, finished by the non-blocking loop. Judged by
+    the property predicate (too large for the list-based model)."""
+    m = gen_msg(r, False, False)
+    k = r.choice([1, 7, 4097, 12345, r.randrange(1, 100000)])
+    if i == 0:
+        m["pay"] = (1 << 20) + k
+    elif i == 1:
+        m["pay"] = (3 << 20) + k
+    else:
+        m["pay"] = r.choice([(1 << 20) + k, (1 << 20) + k, (2 << 20) + k, (3 << 20) + k, (4 << 20) - 1, (1 << 20) - k, 1 << 20, 5 << 20])
+    if m["hv"] == 6:
+        m["hv"] = 1
+    m["api"] = "ctx"
+    m["fill"] = 0
+    sndbuf = r.choice([4608, 8192, 16384, 40000]) if i < 2 else r.choice([0, 4608, 8192, 16384, 40000, 40000, 200000])
+    m["script"] = gen_big_script(r, r.choice([40, 120, 300]))
+    if i < 2:
+        m["script"] = m["script"].rsplit(",", 1)[0] + ",F"
+    msgs = [m]
+    if r.random() < 0.5 and m["script"][-1] in "FA":
+        msgs.append(gen_msg(r, False, False))         # the next message on the same connection must be intact
+    return {"sndbuf": sndbuf, "pre": r.choice([0, 1, 5])}, msgs
+
+
+def gen_long_header_case(r):
+    """a header of more than 64 KiB (object path of 66..140 kB) on a shrunk send buffer: many sends end and start
+    inside the header"""
+    m = gen_msg(r, False, False)
+    m["hv"] = 5
+    m["plen"] = r.choice([65500, 66000, 70000, 100000, 131100, 140000])
+    m["pay"] = r.choice([0, 7, 2000, 9000, 70000])
+    m["api"] = "ctx"
+    m["fill"] = 0
+    ops = []
+    for _ in range(r.choice([10, 25, 60])):
+        ops += r.choice([["w"], ["w"], ["w", "w"], ["W"], ["T"], ["s", "r"], ["w", "s", "d2240", "r"]])
+        ops.append("d%d" % r.choice([1, 2240, 4544, 9088, 20000]))
+    ops.append(r.choice("FFFAAXQ"))
+    m["script"] = ",".join(ops)
+    return {"sndbuf": r.choice([4608, 4608, 8192, 16384, 40000]), "pre": r.choice([0, 3])}, [m, gen_msg(r, False, False)] if ops[-1] in "FA" else [m]
 
 
 def gen_refused_start(r, m):
@@ -503,7 +575,23 @@ def evaluate(ctx, exe, drv, cases, model_max, timeout):
             ctx.case((msg_str(m), res.get("log")), nontrivial=nontrivial,
                      sample={"msg": msg_str(m)[:160], "log": res.get("log", "")[:200], "fds": res.get("fds")} if nontrivial and len(log) > 5 else None)
             tot = int(res.get("total", "0") or 0)
-            ctx.count("size:" + ("<=256" if tot <= 256 else "<=8K" if tot <= 8192 else "<=64K" if tot <= 65536 else "<=512K" if tot <= 524288 else ">512K"))
+            ctx.count("size:" + ("<=256" if tot <= 256 else "<=8K" if tot <= 8192 else "<=64K" if tot <= 65536 else "<=512K" if tot <= 524288 else "<=1M" if tot <= (1 << 20) else ">1M"))
+            if hlen > 65536:
+                ctx.count("header_longer_than_64K")
+                if tot <= max(model_max, MODEL_MAX_THOROUGH):
+                    ctx.count("header_longer_than_64K:replayed_through_the_model")
+                ctx.count("header_longer_than_64K:calls_starting_inside_the_header_beyond_64K", sum(1 for b, a in log if 65536 <= a < hlen and b not in ("-",) and not b.startswith("d:")))
+            # sends that start far into the body: positions (before a send call) beyond 1 MiB of body
+            # (a non-blocking sendmsg accepts at most one socket buffer, < 256 KiB here: a non-blocking loop W/F that
+            # ends beyond 1 MiB + 256 KiB has made a call that started beyond 1 MiB)
+            starts = [a for (b, a), (b2, a2) in zip([("", 0)] + log, log)
+                      if a < tot and ((a - hlen >= (1 << 20) and (b2.startswith("w:") or b2[:2] in ("W:", "T:", "F:", "A:")))
+                                      or (b2[:2] in ("W:", "F:") and a2 - hlen >= (1 << 20) + (1 << 18)))]
+            if starts:
+                ctx.count("body>1M:messages_with_a_send_call_starting_beyond_1MiB_of_body")
+                ctx.count("body>1M:send_calls_starting_beyond_1MiB_of_body", len(starts))
+                if any(b == "r" and a - hlen >= (1 << 20) for b, a in log):
+                    ctx.count("body>1M:resumed_beyond_1MiB_of_body")
             ctx.count("fds:%d" % m["nfds"])
             ctx.count("partial_writes", partial)
             ctx.count("eagain_results", eagain)
@@ -521,7 +609,10 @@ def evaluate(ctx, exe, drv, cases, model_max, timeout):
             if m.get("fill"):
                 ctx.count("socket_full_at_start")
         # ---- model replay
-        if all(int(res.get("total", "0") or 0) <= model_max for res in results):
+        # messages with a header beyond 64 KiB are replayed through the model up to the thorough tier's limit in
+        # both tiers (a dozen per quick run, well under a second each)
+        limit = max(model_max, MODEL_MAX_THOROUGH) if any(m["hv"] == 5 and m["plen"] > 60000 for m in msgs) else model_max
+        if all(int(res.get("total", "0") or 0) <= limit for res in results):
             ml = model_line(head, msgs, results)
             if ml is not None:
                 mlines.append(ml)
@@ -663,7 +754,7 @@ def run(ctx):
     ctx.rule = ("cases = 1-3 messages sent one after the other on one real connection (AF_UNIX socket pair, SO_SNDBUF of the "
                 "sender shrunk to 4608..40000 or default); each message: byte order, 6 header shapes (incl. a header longer "
                 "than the socket buffer), flags, preset/fresh serial, 0-3 real descriptors (pipes, compared by st_dev/st_ino), "
-                "body of 0 B .. %s (generated ones up to 256 KiB in quick) built by push_param or from_parts (with buffer offset), and a random script of "
+                "body of 0 B .. %s (ordinary stream: mostly up to 256 KiB in quick, one in fifty 1-3 MiB + k) built by push_param or from_parts (with buffer offset), and a random script of "
                 "write_once(Nonblock) / peer drains / into_progress / resume / write(Nonblock) / write(1ms) ended by a "
                 "write loop or write_all, or (about one message in eight) sent through the public wrapper "
                 "send_message_write_all while a thread drains the peer; some messages are given up (context dropped "
@@ -673,8 +764,12 @@ def run(ctx):
                 "replays it. A case is non-trivial when it saw a short write, EAGAIN or a suspension at a partial position; "
                 "distinct = distinct (message, observed schedule). Messages whose header + body exceed %d KiB are not replayed "
                 "through the extracted model (list-based, too slow): they are judged by the property predicate on the "
-                "implementation's output only - the evidence counts them as model_skipped / model_replayed; quick adds one "
-                "fixed 4 MiB message with descriptors to the generated ones") % ("4 MiB", (MODEL_MAX_THOROUGH if thorough else MODEL_MAX_QUICK) // 1024)
+                "implementation's output only - the evidence counts them as model_skipped / model_replayed; every run adds one "
+                "fixed 4 MiB message with descriptors, %d messages with a body of 1 MiB + k .. 5 MiB (the first two always 1 MiB + k "
+                "and 3 MiB + k on a shrunk send buffer, finished by the non-blocking write/drain loop) under schedules of 40-300 "
+                "rounds of non-blocking / 1 ms sends, suspensions, resumes and partial drains, so that many sendmsg calls start "
+                "beyond 1, 2, 3 MiB of body (counters body>1M:*), and %d messages whose header is longer than 64 KiB (object path "
+                "of 65.5-140 kB) with sends that end inside the header (counters header_longer_than_64K*; these are replayed through the model up to %d KiB in both tiers)") % ("5 MiB", (MODEL_MAX_THOROUGH if thorough else MODEL_MAX_QUICK) // 1024, 40 if thorough else 7, 40 if thorough else 8, MODEL_MAX_THOROUGH // 1024)
     ctx.trusted = ["Coq 8.16.1 kernel (coqc), no native_compute", "extraction with ExtrOcamlBasic only, ocamlfind ocamlopt 4.13.1",
                    "ocaml/c10/driver.ml and harness/src/bin/c10.rs (I/O wrappers; the driver replays the harness's API calls on the model)",
                    "Linux AF_UNIX stream socket semantics as modelled by Conn/Send.v sendmsg: accepted bytes are a prefix of the iov, the "
@@ -702,6 +797,15 @@ def run(ctx):
     n = 2500 if thorough else 450
     for _ in range(n):
         cases.append(gen_case(r, thorough))
+    # the quantifier says multi-megabyte / any header: bodies of 1 MiB + k .. 5 MiB with long schedules of short
+    # sends (a sendmsg that STARTS beyond 1 MiB needs a non-blocking loop: one blocking write_all sends the
+    # whole rest in one call), and headers longer than 64 KiB with sends that end inside the header
+    rb = ctx.sub_rng("big")
+    for i in range(40 if thorough else 7):
+        cases.append(gen_big_case(rb, i))
+    rh = ctx.sub_rng("longheader")
+    for _ in range(40 if thorough else 8):
+        cases.append(gen_long_header_case(rh))
     # the quantifier says multi-megabyte: one 4 MiB message in every run (about 0.1 s), suspended and resumed on the way
     cases.append(parse_case_line("case sndbuf=40000 pre=1 | bo=B hv=1 plen=0 flags=1 preset=- nfds=3 pay=4194304 seed=4242 mode=push off=0 "
                                  "script=w,d100000,w,W,s,d1048576,r,w,T,d1048576,s,r,A | bo=l hv=0 plen=0 flags=0 preset=- nfds=1 pay=7 seed=1 mode=parts off=0 script=w"))
